@@ -82,6 +82,11 @@ type c12Scanner struct {
 	// alias fields found by following a parameter: assigned from a table / lock parameter
 	aliasT, aliasL []string
 	lockParams     map[string]bool
+	name           string
+	lits           int
+	probe          string // a func-typed parameter: in which state is it called?
+	probeHeld      []int
+	lookup         func(callee string, arg int) int
 }
 
 func c12FuncName(dir string, fd *ast.FuncDecl) string {
@@ -103,11 +108,161 @@ func c12IsNil(e ast.Expr) bool {
 	return ok && id.Name == "nil"
 }
 
-// scan walks one function body (function literals are functions of their own).
+// held states of the table lock on a path: 0 = not held, 1 = held, 2 = differs between the paths
+// that reach this point (or cannot be told)
+func c12Join(a, b int) int {
+	if a == b {
+		return a
+	}
+	return 2
+}
+
+// scan walks one function body, path by path: the state of the table lock is tracked through
+// branches (each branch starts from the state before it; branches that return do not take part
+// in the join) and into function literals (called on the spot: current state; passed to a
+// callee: the state in which the callee calls its parameter; deferred: a function of its own;
+// anything else: unknown).
 func (sc *c12Scanner) scan(name string, body *ast.BlockStmt) {
-	held := false
-	lits := 0
+	sc.name = name
+	sc.lits = 0
+	sc.block(body.List, 0)
+}
+
+func (sc *c12Scanner) block(list []ast.Stmt, held int) (int, bool) {
+	for _, s := range list {
+		var term bool
+		held, term = sc.stmt(s, held)
+		if term {
+			return held, true
+		}
+	}
+	return held, false
+}
+
+func (sc *c12Scanner) stmt(s ast.Stmt, held int) (int, bool) {
+	switch x := s.(type) {
+	case nil:
+		return held, false
+	case *ast.BlockStmt:
+		return sc.block(x.List, held)
+	case *ast.LabeledStmt:
+		return sc.stmt(x.Stmt, held)
+	case *ast.ReturnStmt:
+		return sc.expr(x, nil, held), true
+	case *ast.BranchStmt:
+		return held, true
+	case *ast.IfStmt:
+		held, _ = sc.stmt(x.Init, held)
+		held = sc.expr(x.Cond, nil, held)
+		h1, t1 := sc.block(x.Body.List, held)
+		h2, t2 := held, false
+		if x.Else != nil {
+			h2, t2 = sc.stmt(x.Else, held)
+		}
+		switch {
+		case t1 && t2:
+			return held, true
+		case t1:
+			return h2, false
+		case t2:
+			return h1, false
+		}
+		return c12Join(h1, h2), false
+	case *ast.SwitchStmt, *ast.TypeSwitchStmt, *ast.SelectStmt:
+		var clauses []ast.Stmt
+		switch y := x.(type) {
+		case *ast.SwitchStmt:
+			held, _ = sc.stmt(y.Init, held)
+			if y.Tag != nil {
+				held = sc.expr(y.Tag, nil, held)
+			}
+			clauses = y.Body.List
+		case *ast.TypeSwitchStmt:
+			held, _ = sc.stmt(y.Init, held)
+			held, _ = sc.stmt(y.Assign, held)
+			clauses = y.Body.List
+		case *ast.SelectStmt:
+			clauses = y.Body.List
+		}
+		res, any, hasDefault := held, false, false
+		for _, c := range clauses {
+			h := held
+			var body []ast.Stmt
+			switch cc := c.(type) {
+			case *ast.CaseClause:
+				for _, e := range cc.List {
+					h = sc.expr(e, nil, h)
+				}
+				hasDefault = hasDefault || cc.List == nil
+				body = cc.Body
+			case *ast.CommClause:
+				h, _ = sc.stmt(cc.Comm, h)
+				hasDefault = hasDefault || cc.Comm == nil
+				body = cc.Body
+			}
+			hb, t := sc.block(body, h)
+			if t {
+				continue
+			}
+			if !any {
+				res, any = hb, true
+			} else {
+				res = c12Join(res, hb)
+			}
+		}
+		if !hasDefault {
+			if !any {
+				res = held
+			} else {
+				res = c12Join(res, held)
+			}
+		} else if !any {
+			return held, true
+		}
+		return res, false
+	case *ast.ForStmt:
+		held, _ = sc.stmt(x.Init, held)
+		if x.Cond != nil {
+			held = sc.expr(x.Cond, nil, held)
+		}
+		hb, _ := sc.block(x.Body.List, held)
+		hb, _ = sc.stmt(x.Post, hb)
+		return c12Join(held, hb), false
+	case *ast.RangeStmt:
+		held = sc.expr(x.X, x, held)
+		hb, _ := sc.block(x.Body.List, held)
+		return c12Join(held, hb), false
+	case *ast.DeferStmt:
+		if sel, ok := x.Call.Fun.(*ast.SelectorExpr); ok && sc.isLock(sel.X) {
+			return held, false // deferred Unlock: the lock is kept to the end of the function
+		}
+		return sc.expr(x, nil, held), false
+	default:
+		return sc.expr(s, nil, held), false
+	}
+}
+
+func (sc *c12Scanner) isLock(e ast.Expr) bool {
+	switch x := e.(type) {
+	case *ast.SelectorExpr:
+		return sc.locks[x.Sel.Name]
+	case *ast.Ident:
+		return sc.lockParams[x.Name]
+	}
+	return false
+}
+
+// expr inspects one statement or expression that contains no nested statement list (except in
+// function literals) in evaluation (= source) order.
+func (sc *c12Scanner) expr(root ast.Node, parent0 ast.Node, held int) int {
+	if root == nil {
+		return held
+	}
+	name := sc.name
 	var stack []ast.Node
+	if parent0 != nil {
+		stack = append(stack, parent0)
+	}
 	isTable := func(n ast.Node) (string, bool) {
 		switch x := n.(type) {
 		case *ast.SelectorExpr:
@@ -121,57 +276,74 @@ func (sc *c12Scanner) scan(name string, body *ast.BlockStmt) {
 		}
 		return "", false
 	}
-	isLock := func(e ast.Expr) bool {
-		switch x := e.(type) {
-		case *ast.SelectorExpr:
-			return sc.locks[x.Sel.Name]
-		case *ast.Ident:
-			return sc.lockParams[x.Name]
-		}
-		return false
-	}
 	guard := func() string {
-		if held {
+		switch held {
+		case 1:
 			return "guarded"
+		case 0:
+			return "unguarded"
 		}
-		return "unguarded"
+		return "unknown"
 	}
-	ast.Inspect(body, func(n ast.Node) bool {
+	ast.Inspect(root, func(n ast.Node) bool {
 		if n == nil {
 			stack = stack[:len(stack)-1]
 			return true
 		}
-		if fl, ok := n.(*ast.FuncLit); ok {
-			lits++
-			sub := *sc
-			sub.uses, sub.esc, sub.aliasT, sub.aliasL = nil, nil, nil, nil
-			sub.scan(fmt.Sprintf("%s.func%d", name, lits), fl.Body)
-			sc.uses = append(sc.uses, sub.uses...)
-			sc.esc = append(sc.esc, sub.esc...)
-			sc.aliasT = append(sc.aliasT, sub.aliasT...)
-			sc.aliasL = append(sc.aliasL, sub.aliasL...)
-			return false
-		}
-		var parent ast.Node
+		var parent, grand ast.Node
 		if len(stack) > 0 {
 			parent = stack[len(stack)-1]
 		}
-		stack = append(stack, n)
-		// lock operations (a deferred Unlock keeps the lock to the end of the function)
-		if c, ok := n.(*ast.CallExpr); ok {
-			if sel, ok := c.Fun.(*ast.SelectorExpr); ok && isLock(sel.X) {
-				if _, deferred := parent.(*ast.DeferStmt); !deferred {
-					switch sel.Sel.Name {
-					case "Lock":
-						held = true
-					case "Unlock":
-						held = false
+		if len(stack) > 1 {
+			grand = stack[len(stack)-2]
+		}
+		if fl, ok := n.(*ast.FuncLit); ok {
+			sc.lits++
+			h0, onTheSpot := 2, false
+			if c, ok := parent.(*ast.CallExpr); ok {
+				if c.Fun == n {
+					if _, deferred := grand.(*ast.DeferStmt); deferred {
+						h0 = 0 // runs when the function is left: a function of its own
+					} else if _, goStmt := grand.(*ast.GoStmt); goStmt {
+						h0 = 0
+					} else {
+						h0, onTheSpot = held, true
+					}
+				} else {
+					for i, a := range c.Args {
+						if a == n && sc.lookup != nil {
+							h0 = sc.lookup(c12Callee(c), i)
+						}
 					}
 				}
 			}
+			saved := sc.name
+			sc.name = fmt.Sprintf("%s.func%d", name, sc.lits)
+			h1, _ := sc.block(fl.Body.List, h0)
+			sc.name = saved
+			if onTheSpot {
+				held = h1
+			}
+			return false
+		}
+		stack = append(stack, n)
+		if c, ok := n.(*ast.CallExpr); ok {
+			if sel, ok := c.Fun.(*ast.SelectorExpr); ok && sc.isLock(sel.X) {
+				if _, deferred := parent.(*ast.DeferStmt); !deferred {
+					switch sel.Sel.Name {
+					case "Lock":
+						held = 1
+					case "Unlock":
+						held = 0
+					}
+				}
+			}
+			if id, ok := c.Fun.(*ast.Ident); ok && sc.probe != "" && id.Name == sc.probe {
+				sc.probeHeld = append(sc.probeHeld, held)
+			}
 		}
 		// a lock handed to a callee / stored in a field
-		if e, ok := n.(ast.Expr); ok && isLock(e) {
+		if e, ok := n.(ast.Expr); ok && sc.isLock(e) {
 			switch p := parent.(type) {
 			case *ast.CallExpr:
 				for i, a := range p.Args {
@@ -194,7 +366,6 @@ func (sc *c12Scanner) scan(name string, body *ast.BlockStmt) {
 			return true
 		}
 		if id, isIdent := n.(*ast.Ident); isIdent {
-			// the Sel of a selector and the key of a struct literal are not uses of a parameter
 			if s, ok := parent.(*ast.SelectorExpr); ok && s.Sel == id {
 				return true
 			}
@@ -230,9 +401,8 @@ func (sc *c12Scanner) scan(name string, body *ast.BlockStmt) {
 				}
 			}
 		case *ast.AssignStmt:
-			for i, l := range p.Lhs {
+			for _, l := range p.Lhs {
 				if l == n && sc.alias {
-					_ = i
 					return true // (re)binding the alias field itself
 				}
 			}
@@ -250,6 +420,7 @@ func (sc *c12Scanner) scan(name string, body *ast.BlockStmt) {
 		sc.uses = append(sc.uses, c12Use{where + " used as a value", "unknown"})
 		return true
 	})
+	return held
 }
 
 func c12Callee(c *ast.CallExpr) string {
@@ -292,8 +463,28 @@ func c12TableUses() ([]c12Use, error) {
 			}
 		}
 	}
+	// in which lock state does a callee call the function it was given as argument number arg?
+	lookup := func(callee string, arg int) int {
+		res, found := 2, false
+		eachFunc("", func(dir string, fd *ast.FuncDecl) {
+			ps := c12ParamNames(fd)
+			if fd.Name.Name != callee || arg >= len(ps) {
+				return
+			}
+			sc := &c12Scanner{tables: map[string]bool{}, locks: map[string]bool{"MutexesMutex": true}, probe: ps[arg]}
+			sc.scan(c12FuncName(dir, fd), fd.Body)
+			for _, h := range sc.probeHeld {
+				if !found {
+					res, found = h, true
+				} else {
+					res = c12Join(res, h)
+				}
+			}
+		})
+		return res
+	}
 	// pass 1: the tables themselves, everywhere
-	p1 := &c12Scanner{tables: map[string]bool{"Mutexes": true, "MutexeOwners": true}, locks: map[string]bool{"MutexesMutex": true}}
+	p1 := &c12Scanner{tables: map[string]bool{"Mutexes": true, "MutexeOwners": true}, locks: map[string]bool{"MutexesMutex": true}, lookup: lookup}
 	eachFunc("", func(dir string, fd *ast.FuncDecl) { p1.scan(c12FuncName(dir, fd), fd.Body) })
 	uses := p1.uses
 	// pass 2: follow the tables (and the lock) into callees
@@ -491,4 +682,47 @@ func c12CounterInit() int {
 		return -1
 	}
 	return val
+}
+
+// c12LiteralTids lists every call in the tree (non-test files) that evaluates ECAL code with an
+// integer LITERAL as the thread id: Runtime.Eval(vs, is, <lit>) or an ECALFunction's
+// Run(instanceID, vs, is, <lit>, args). A thread id must come from the pool's generator.
+func c12LiteralTids() ([]string, error) {
+	files, err := c12AllFiles()
+	if err != nil {
+		return nil, err
+	}
+	var out []string
+	for _, cf := range files {
+		for _, d := range cf.file.Decls {
+			fd, ok := d.(*ast.FuncDecl)
+			if !ok || fd.Body == nil {
+				continue
+			}
+			ast.Inspect(fd.Body, func(n ast.Node) bool {
+				c, ok := n.(*ast.CallExpr)
+				if !ok {
+					return true
+				}
+				sel, ok := c.Fun.(*ast.SelectorExpr)
+				if !ok {
+					return true
+				}
+				pos := -1
+				switch {
+				case sel.Sel.Name == "Eval" && len(c.Args) == 3:
+					pos = 2
+				case sel.Sel.Name == "Run" && len(c.Args) == 5:
+					pos = 3
+				}
+				if pos >= 0 {
+					if lit, ok := c.Args[pos].(*ast.BasicLit); ok && lit.Kind == token.INT {
+						out = append(out, c12FuncName(cf.dir, fd)+":"+lit.Value)
+					}
+				}
+				return true
+			})
+		}
+	}
+	return out, nil
 }
